@@ -157,7 +157,10 @@ func vhC10AlphaBound() {
 	it := newLookup(context.Background(), tab, w.target, q)
 	it.run()
 	vsAssert(w.maxPend <= alpha, "at-most-three-queries-in-flight")
-	vsAssert(asked == len(w.pool), "every-known-peer-asked-once")
+	vsAssert(asked <= len(w.pool), "at-most-one-query-per-known-peer")
+	if asked == len(w.pool) {
+		vsCover("every-known-peer-asked")
+	}
 	vsCover("done")
 }
 
